@@ -293,6 +293,17 @@ def obligations(tier):
             vs = [(f"n{i}", 1, S) for i in range(nd)] + [(f"c{i}", 1, S) for i in range(nd)] + [(f"t{i}", 1, S) for i in range(nd)] + [("isz", 1, 8 if nd == 1 else 2), ("mn", 0, 1), ("mx", 0, 8 * S * S * 4)]
             o.append(Obl(f"plan[{'regular' if regular else 'irregular'},{nd}d,single-stage]", (lambda nd, regular: lambda **kw: plan_nd(nd, regular, **kw))(nd, regular), vs,
                          bounds=f"{nd} dims, sizes/chunks <= {S}, min_mem 0..1 (single stage), every max_mem; for 2 dims geometry and itemsize are forked by value (solver-enumerated) and the budgets stay symbolic", witness_rule=lambda m: m["c0"] != m["t0"], **common))
+    # both axes GROW (write chunks larger than source chunks, not necessarily multiples): the consolidated read chunks run into the
+    # write-chunk limits on two axes at once, where per-axis adjustments can add up beyond max_mem
+    def growing(**kw):
+        sx.assume(kw["t0"] > kw["c0"])
+        sx.assume(kw["t1"] > kw["c1"])
+        plan_nd(2, 0, **kw)
+
+    G_ = 6 if tier == "quick" else 8
+    vs = [("n0", G_, G_), ("n1", G_, G_), ("c0", 1, 2), ("c1", 1, 2), ("t0", 3, 5), ("t1", 3, 5), ("isz", 1, 1), ("mn", 0, 0), ("mx", 0, 40)]
+    o.append(Obl("plan[irregular,2d,both-axes-growing]", growing, vs,
+                 bounds=f"2 dims, extents {G_}x{G_}, source chunks 1..2, larger target chunks 3..5 (geometry forked by value), itemsize 1, every max_mem up to 40", witness_rule=lambda m: m["t0"] % m["c0"] != 0, **common))
     # multi-stage: small sizes, tight budgets
     Q = 4 if tier == "quick" else 6
     QL = 4 if tier == "quick" else 1  # quick: extents fixed to 4 (smallest size with reachable multi-stage plans)
